@@ -445,6 +445,13 @@ func (env *Env) evalBin(t *EBin) Value {
 		env.sameInt(a, b, t)
 		return env.boolv(c.Cmp(op, a.Term(), b.Term(), a.T))
 	}
+	if t.Op == "+" && isString(a.T) && isString(b.T) {
+		// same uninterpreted concatenation the executor uses, so terms coincide
+		f := c.Fun("str.concat_", []Sort{SStr, SStr}, SStr)
+		r := f(a.Term(), b.Term())
+		c.onceFact("concat:"+r.S, tTrue, eq(mk(SInt, "str.len_", r), mk(SInt, "+", mk(SInt, "str.len_", a.Term()), mk(SInt, "str.len_", b.Term()))))
+		return c.Scalar(types.Typ[types.String], r)
+	}
 	env.sameInt(a, b, t)
 	return c.Scalar(a.T, c.Arith(op, a.Term(), b.Term(), a.T, b.T))
 }
@@ -493,6 +500,13 @@ func (env *Env) evalCall(t *ECall) Value {
 			env.fail("conversion %s of %s", t.Fn, v.T)
 		}
 		return c.Scalar(T, c.ConvertInt(v.Term(), v.T, T))
+	}
+	if t.Fn == "string" && len(t.Args) == 1 {
+		v := env.eval(t.Args[0])
+		if isString(v.T) {
+			return Value{T: types.Typ[types.String], L: v.L}
+		}
+		env.fail("string() of %s", v.T)
 	}
 	switch t.Fn {
 	case "old":
